@@ -83,7 +83,9 @@ class Run:
             cmd += extra
         cmd += [os.path.join(d, module + '.tla')]
         env = dict(os.environ)
-        jo = '-Xmx%s -Xss512m' % heap
+        jtmp = os.path.join(self.work, 'jtmp')
+        os.makedirs(jtmp, exist_ok=True)
+        jo = '-Xmx%s -Xss512m -Djava.io.tmpdir=%s' % (heap, jtmp)   # TLC leaves a tlc-* directory per run in the temp dir
         if java_opts:
             jo += ' ' + java_opts
         env['JAVA_TOOL_OPTIONS'] = jo
